@@ -13,7 +13,7 @@ const { SimFs } = require('./simfs')
 const smap = require('./smap')
 
 // two pairs share a base name in different directories
-const FILES = ['/sim/app/a.js', '/sim/app/lib/b.js', '/sim/other/a.js', '/sim/c.js', '/sim/app/lib/deep/b.js', '/sim/other/e.js', '/sim/app/a\u00f1adir.js', '/sim/app/gen\\util.js', '/sim/app/(shop)/cart.js', '/sim/Program Files (x86)/svc/index.js', '/sim/app/[id]/page:1.js', '/rootfile.js', '/sim/app/a$$b/y.js', "/sim/app/a$&b/x$'.js"]
+const FILES = ['/sim/app/a.js', '/sim/app/lib/b.js', '/sim/other/a.js', '/sim/c.js', '/sim/app/lib/deep/b.js', '/sim/other/e.js', '/sim/app/a\u00f1adir.js', '/sim/app/gen\\util.js', '/sim/app/(shop)/cart.js', '/sim/Program Files (x86)/svc/index.js', '/sim/app/[id]/page:1.js', '/rootfile.js', '/sim/app/models/User.js', '/sim/app/models/user.js', '/sim/app/a$$b/y.js', "/sim/app/a$&b/x$'.js"]
 
 function cfgOf (chain, comments) {
   return {
@@ -355,8 +355,10 @@ async function execute (plan, table) {
         const rel = !prev ? 'first' : prev.v === op.v ? `same-${status}` : `newer-${status}`
         if (cache) {
           const id = ++rewriteId
-          // a failing rewrite throws before the cache is touched; the tracer then runs the original text
-          L[f.path] = { id, v: op.v, status, content: resp && resp.content, rw: rwIdx }
+          // a failing rewrite throws before the cache is touched: nothing was rewritten, the module loaded
+          // before keeps running, and the latest SUCCESSFUL rewrite stays the one lookups must use
+          if (status === 'failed' && prev && prev.status !== 'failed') st('probe:failed-rewrite-after-a-successful-one')
+          else L[f.path] = { id, v: op.v, status, content: resp && resp.content, rw: rwIdx }
           if (status === 'modified') everModified[f.path] = true
           if (prev && prev.rw !== rwIdx) st('probe:rewrite-by-second-rewriter-instance')
           if (prev) st('probe:file-rewritten-again')
